@@ -36,7 +36,9 @@ theorem pulls_increasing (c len : Nat) (hc : 0 < c) :
       simp only [hp, List.mem_cons] at hch
       rcases hch with rfl | hch
       · refine ⟨Nat.le_refl _, hb, ?_, by simp⟩
-        have := Nat.min_le_right c (len - counter)
+        show counter + Nat.min c (len - counter) ≤ len
+        generalize hm : Nat.min c (len - counter) = m
+        have : m ≤ len - counter := by rw [← hm]; exact Nat.min_le_right _ _
         omega
       · obtain ⟨h1, h2, h3, h4⟩ := ih (counter + c) hrest ch hch
         refine ⟨by omega, h2, h3, ?_⟩
